@@ -407,7 +407,9 @@ func (session *HermesSession) Run(workingDir string, args []string, logID string
 			// *************** ABRUFEN DER HYDROLOGISCHEN PARAMETER ***************
 			// *************** CALL HYDROLOGICAL PARAMETERS ***************
 			// ground water level has changed
-			if g.GRW != oldGrW {
+			// with a moving groundwater table the parameters are a function of the level alone: they are also derived
+			// on the first day (the initial assignment saturates one layer more than the daily update does)
+			if g.GRW != oldGrW || (ZEIT == g.BEGINN && g.GROUNDWATERFROM != Soilfile) {
 				if g.PTF == 0 && g.CAPPAR == 0 {
 					for L := 1; L <= g.AZHO; L++ {
 						Lindex := L - 1
